@@ -37,9 +37,9 @@ var hdecReal = []string{"pkg/decode (decode, recover, gap filling, post processi
 var plans = map[string]Plan{
 	"C06": {
 		Stages: []Stage{
-			{Harness: "hdec", Config: "default", Quick: 4000, Thorough: 2000000, QuickSec: 150, ThoroughSec: 1500, MemGB: 4, HeapGB: 1},
+			{Harness: "hdec", Config: "default", Quick: 4000, Thorough: 100000, QuickSec: 150, ThoroughSec: 2400, MemGB: 4, HeapGB: 1},
 			// process level: the whole CLI on corrupted files and a failing disk
-			{Harness: "hcrash", Config: "default", Quick: 1200, Thorough: 60000, QuickSec: 90, ThoroughSec: 900, MemGB: 6, HeapGB: 3},
+			{Harness: "hcrash", Config: "default", Quick: 1200, Thorough: 50000, QuickSec: 90, ThoroughSec: 1200, MemGB: 6, HeapGB: 3},
 		},
 		Rule: "one run = one decode of a corpus sample (<= 16 KiB, thorough: sometimes <= 256 KiB) with its natural format, the probe or a foreign format, force on/off, through decode.Decode over IOBitReadSeeker(simulated disk) so that every field read is a disk call, under one tape-chosen storage fault: abort at the k-th disk call of the fault-free decode (transient EIO, persistent EIO, early EOF, cancel), truncation at a byte offset (consecutive run indices sweep small files densely), bit-rot of 1..3 bits, overwrite with a boundary byte (offsets biased to the first 64 bytes and to offsets the fault-free decode read with widths 1..8), a zeroed / duplicated / dropped block of 1..512 bytes; the fault-free decode of each pair is checked too; oracle C06: the decode returns - with a tree (possibly partial, error attached) or an error; a panic that escapes decode.Decode is a violation keyed by the innermost fq frame and the panic class; worker deaths from unbounded allocation and spins without I/O are counted as resource-inconclusive, not as violations; distinct = (pair, fault, first bytes) fingerprint; every faulted decode is non-trivial",
 		Real: hdecReal,
@@ -53,9 +53,9 @@ var plans = map[string]Plan{
 	},
 	"C03": {
 		Stages: []Stage{
-			{Harness: "hdec", Config: "default", Quick: 4000, Thorough: 2000000, QuickSec: 150, ThoroughSec: 1500, MemGB: 4, HeapGB: 1},
+			{Harness: "hdec", Config: "default", Quick: 4000, Thorough: 100000, QuickSec: 150, ThoroughSec: 2400, MemGB: 4, HeapGB: 1},
 			// generated decoder programs against a reference interpreter, over a disk with short reads and aborts
-			{Harness: "hapi", Config: "default", Quick: 40000, Thorough: 3000000, QuickSec: 60, ThoroughSec: 900, MemGB: 4, HeapGB: 1},
+			{Harness: "hapi", Config: "default", Quick: 40000, Thorough: 1500000, QuickSec: 60, ThoroughSec: 1500, MemGB: 4, HeapGB: 1},
 		},
 		Rule: "one run = one decode of a corpus sample (<= 16 KiB, thorough: sometimes <= 256 KiB) with its natural format, the probe or a foreign format, force on/off, through decode.Decode over IOBitReadSeeker(simulated disk) so that every field read is a disk call, under one tape-chosen storage fault: abort at the k-th disk call of the fault-free decode (transient EIO, persistent EIO, early EOF, cancel), truncation at a byte offset (consecutive run indices sweep small files densely), bit-rot of 1..3 bits, overwrite with a boundary byte (offsets biased to the first 64 bytes and to offsets the fault-free decode read with widths 1..8), a zeroed / duplicated / dropped block of 1..512 bytes; the fault-free decode of each pair is checked too; oracle C03 on every returned tree, complete or partial: ranges non-negative and (unless synthetic) inside the value's buffer, a compound's range (inner range for a buffer root) spans every non-synthetic non-root child, struct fields have unique names, non-decreasing start, index -1 and are found by name, array elements are numbered by position, child.parent is the parent, the root's range starts at the decode range || hapi: one run = one decoder program generated together with its expected tree by a reference interpreter (plain integer positions, no I/O): FieldU / FieldRawLen leaves (bit or byte granular, zero length now and then), FieldStruct, FieldArray, an array loop until the end, FramedFn, LimitedFn, RangeFn, SeekAbs/SeekRel with decode functions (a third of them to the current position) and without, FieldFormat / FieldFormatLen / FieldFormatRange with generated nested formats (also in probing groups whose first formats fail; also on an empty remainder), FieldFormatBitBuf and FieldStructRootBitBufFn over generated nested buffers; one program in three has one operation aimed past a boundary, a duplicate field name or a Fatalf; run by the real decode package over IOBitReadSeeker(simulated disk) twice with short reads (1..5 bytes per call) and six times with an abort (transient EIO, persistent EIO, early EOF, cancel) at a drawn disk call; oracle: the fault-free tree - names, kinds, numbering, exact bit ranges, integer values, gap fields - equals the reference tree, a program that fails by design fails and keeps exactly the partial tree built so far, after an abort every field of the returned tree is a field of the reference tree (same path, range and bits), plus the structural oracles above on every tree; distinct = (pair, fault) fingerprint; every faulted decode is non-trivial",
 		Real: hdecReal,
@@ -68,9 +68,9 @@ var plans = map[string]Plan{
 	},
 	"C04": {
 		Stages: []Stage{
-			{Harness: "hdec", Config: "default", Quick: 4000, Thorough: 2000000, QuickSec: 150, ThoroughSec: 1500, MemGB: 4, HeapGB: 1},
+			{Harness: "hdec", Config: "default", Quick: 4000, Thorough: 100000, QuickSec: 150, ThoroughSec: 2400, MemGB: 4, HeapGB: 1},
 			// generated decoder programs against a reference interpreter, over a disk with short reads and aborts
-			{Harness: "hapi", Config: "default", Quick: 40000, Thorough: 3000000, QuickSec: 60, ThoroughSec: 900, MemGB: 4, HeapGB: 1},
+			{Harness: "hapi", Config: "default", Quick: 40000, Thorough: 1500000, QuickSec: 60, ThoroughSec: 1500, MemGB: 4, HeapGB: 1},
 		},
 		Rule: "one run = one decode of a corpus sample (<= 16 KiB, thorough: sometimes <= 256 KiB) with its natural format, the probe or a foreign format, force on/off, through decode.Decode over IOBitReadSeeker(simulated disk) so that every field read is a disk call, under one tape-chosen storage fault: abort at the k-th disk call of the fault-free decode (transient EIO, persistent EIO, early EOF, cancel), truncation at a byte offset (consecutive run indices sweep small files densely), bit-rot of 1..3 bits, overwrite with a boundary byte (offsets biased to the first 64 bytes and to offsets the fault-free decode read with widths 1..8), a zeroed / duplicated / dropped block of 1..512 bytes; the fault-free decode of each pair is checked too; oracle C04 for the top-level buffer and every nested buffer root made by a format decode: a bitmap of the leaf ranges of that root covers [0, length) completely, no gap leaf intersects a field leaf, and (top level) the bits of every gap equal the stored bits of its range; a failed decode that returns a tree must show the undecoded tail as gaps || hapi: one run = one decoder program generated together with its expected tree by a reference interpreter (plain integer positions, no I/O): FieldU / FieldRawLen leaves (bit or byte granular, zero length now and then), FieldStruct, FieldArray, an array loop until the end, FramedFn, LimitedFn, RangeFn, SeekAbs/SeekRel with decode functions (a third of them to the current position) and without, FieldFormat / FieldFormatLen / FieldFormatRange with generated nested formats (also in probing groups whose first formats fail; also on an empty remainder), FieldFormatBitBuf and FieldStructRootBitBufFn over generated nested buffers; one program in three has one operation aimed past a boundary, a duplicate field name or a Fatalf; run by the real decode package over IOBitReadSeeker(simulated disk) twice with short reads (1..5 bytes per call) and six times with an abort (transient EIO, persistent EIO, early EOF, cancel) at a drawn disk call; oracle: the fault-free tree - names, kinds, numbering, exact bit ranges, integer values, gap fields - equals the reference tree, a program that fails by design fails and keeps exactly the partial tree built so far, after an abort every field of the returned tree is a field of the reference tree (same path, range and bits), gap fields are exactly the maximal uncovered runs computed from a bitmap of the reference leaves; distinct = (pair, fault) fingerprint; every faulted decode is non-trivial",
 		Real: hdecReal,
@@ -83,14 +83,14 @@ var plans = map[string]Plan{
 	},
 	"C18": {
 		Stages: []Stage{
-			{Harness: "hconc", Config: "default", Quick: 140, Thorough: 20000, QuickSec: 130, ThoroughSec: 1500, MemGB: 10},
-			{Harness: "hconc", Config: "default", Race: true, Quick: 80, Thorough: 2500, QuickSec: 110, ThoroughSec: 1200},
+			{Harness: "hconc", Config: "default", Quick: 140, Thorough: 6000, QuickSec: 130, ThoroughSec: 1600, MemGB: 10},
+			{Harness: "hconc", Config: "default", Race: true, Quick: 80, Thorough: 1200, QuickSec: 110, ThoroughSec: 900},
 			// the same sample decoded by 2..3 tasks at once through decode.Decode (no interpreter start-up):
 			// every small corpus sample gets its turn; race build, and plain build against the lone decode
-			{Harness: "htwins", Config: "default", Race: true, Quick: 8000, Thorough: 400000, QuickSec: 90, ThoroughSec: 900, MemGB: 6},
+			{Harness: "htwins", Config: "default", Race: true, Quick: 8000, Thorough: 250000, QuickSec: 90, ThoroughSec: 1200, MemGB: 6},
 			{Harness: "htwins", Config: "default", Quick: 8000, Thorough: 400000, QuickSec: 60, ThoroughSec: 600, MemGB: 6, HeapGB: 2},
 			// history dimension on inputs with cross-record state: a capture cut in two
-			{Harness: "hsplit", Config: "default", Quick: 170, Thorough: 20000, QuickSec: 70, ThoroughSec: 600, MemGB: 8},
+			{Harness: "hsplit", Config: "default", Quick: 170, Thorough: 2000, QuickSec: 70, ThoroughSec: 800, MemGB: 8},
 		},
 		Rule: "one run = 2..6 decode+display jobs (whole fq each: own Interp and simulated OS, shared process-wide registry and package state) drawn with deliberate collisions (same file several times, with and without force, a job hitting EIO/early EOF mid-way next to succeeding ones) from a pool of small corpus samples (one per format), each with one of four display programs whose lazy reads happen in tree-walk order; the jobs run as tasks of one simulation, parked at every disk call and every terminal write (policy drawn per run; most runs coarse, one in four with statement-level pre-emption in the ctx reader); oracle: each fault-free job's stdout, stderr and status are byte-identical to the first lone execution of that job in this worker process, one job is repeated alone afterwards and must still equal it (state left behind by earlier decodes), no panic, no deadlock; race build: the same interleavings under the race detector with a baton that adds no happens-before edge, reports with both accessing frames in fq count; distinct = schedule fingerprint; non-trivial = more context switches than jobs",
 		Real: []string{"the whole of fq per job (interp.New/Main/Stop)", "interp.DefaultRegistry and all package-level state shared by the jobs", "all format decoders the pool needs"},
@@ -104,13 +104,13 @@ var plans = map[string]Plan{
 	},
 	"C19": {
 		Stages: []Stage{
-			{Harness: "hnet", Config: "clean", Quick: 11000, Thorough: 1500000, QuickSec: 90, ThoroughSec: 1500, MemGB: 8},
-			{Harness: "hnet", Config: "omission", Quick: 5500, Thorough: 800000, QuickSec: 50, ThoroughSec: 800, MemGB: 8},
-			{Harness: "hnet", Config: "reportonly", Quick: 2000, Thorough: 200000, QuickSec: 20, ThoroughSec: 250, MemGB: 8},
+			{Harness: "hnet", Config: "clean", Quick: 11000, Thorough: 1000000, QuickSec: 90, ThoroughSec: 2400, MemGB: 8},
+			{Harness: "hnet", Config: "omission", Quick: 5500, Thorough: 800000, QuickSec: 50, ThoroughSec: 1200, MemGB: 8},
+			{Harness: "hnet", Config: "reportonly", Quick: 2000, Thorough: 200000, QuickSec: 20, ThoroughSec: 400, MemGB: 8},
 			// captures taken with a snap length, captures that start after the client's SYN, TSO-sized segments behind a gap
-			{Harness: "hnet", Config: "snaplen", Quick: 3300, Thorough: 600000, QuickSec: 40, ThoroughSec: 600, MemGB: 8},
-			{Harness: "hnet", Config: "nosyn", Quick: 3500, Thorough: 600000, QuickSec: 40, ThoroughSec: 600, MemGB: 8},
-			{Harness: "hnet", Config: "large", Quick: 1300, Thorough: 200000, QuickSec: 50, ThoroughSec: 600, MemGB: 8},
+			{Harness: "hnet", Config: "snaplen", Quick: 3300, Thorough: 200000, QuickSec: 40, ThoroughSec: 1000, MemGB: 8},
+			{Harness: "hnet", Config: "nosyn", Quick: 3500, Thorough: 250000, QuickSec: 40, ThoroughSec: 1000, MemGB: 8},
+			{Harness: "hnet", Config: "large", Quick: 1300, Thorough: 120000, QuickSec: 50, ThoroughSec: 1000, MemGB: 8},
 		},
 		Rule: "one run = a tape-drawn simulated network: 1..5 TCP connections between 2..4 hosts (tape-chosen IPv4 addresses, ports, ISNs incl. near 2^32 and 2^31), each endpoint a minimal TCP (SYN/SYN-ACK/ACK, MSS option, optional timestamps/SACK-permitted/window-scale, tape-chosen segment cuts, send window, immediate or delayed cumulative ACKs, timeout retransmission with backoff and optionally other boundaries, FIN active/passive/never) sending 0..64 KiB per direction (most runs < 2 KiB); a discrete-event network with its own clock: per-packet delay, loss before the tap, loss after the tap, duplication, hold-back reordering by <= 3 packets of the same direction never across a SYN/FIN, a router fragmenting above a tape-chosen MTU (68..1500, neighbouring fragments sometimes swapped, one fragment sometimes lost), a tap that timestamps and (config omission) omits 1..2 data segments or one of their fragments; the capture is written by independent writers as pcap LE/BE/ns or pcapng LE/BE (1..2 interfaces, options, late IDB, NRB/ISB) over Ethernet (with padding), raw IP, SLL, SLL2 or BSD null, and decoded by the real fq (decode.Decode via the registry; one run in 48 the whole CLI on the simulated OS with a jq query and JSON). Oracle: exactly the captured connections in order of first captured packet, client = SYN sender, ip/port right, each direction's stream equal to the bytes sent (clean) or to the bytes before the first byte missing from the capture (omission), skipped_bytes = 0 when nothing is missing and > 0 when the capture holds data beyond the hole, every fragmented datagram whose fragments are all captured listed in .ipv4_reassembled with its addresses, protocol and payload; generator self-check (tagged HARNESS): its own TCP delivers every stream, fragments reassemble to the datagram sent, checksums verify, bounded liveness after the last fault. reportonly (SYN/FIN swaps, data before SYN, displacement <= 8, pcapng stated section length) only counts mismatches. distinct = FNV of the capture bytes; non-trivial = at least one connection carried data",
 		Real: []string{"format/pcap (pcap, pcapng)", "format/inet/flowsdecoder", "gopacket reassembly + ip4defrag", "format/inet (ether8023_frame, sll/sll2/loopback, ipv4_packet, tcp_segment)", "pkg/decode", "pkg/interp + jq + JSON output (1 run in 48)"},
@@ -126,9 +126,9 @@ var plans = map[string]Plan{
 	},
 	"C15": {
 		Stages: []Stage{
-			{Harness: "hstore", Config: "intact", Quick: 400, Thorough: 40000, QuickSec: 60, ThoroughSec: 600, MemGB: 8},
-			{Harness: "hstore", Config: "bitrot", Quick: 400, Thorough: 40000, QuickSec: 60, ThoroughSec: 600, MemGB: 8},
-			{Harness: "hstore", Config: "torn", Quick: 300, Thorough: 30000, QuickSec: 50, ThoroughSec: 500, MemGB: 8},
+			{Harness: "hstore", Config: "intact", Quick: 400, Thorough: 5000, QuickSec: 60, ThoroughSec: 1000, MemGB: 8},
+			{Harness: "hstore", Config: "bitrot", Quick: 400, Thorough: 5000, QuickSec: 60, ThoroughSec: 1000, MemGB: 8},
+			{Harness: "hstore", Config: "torn", Quick: 300, Thorough: 4000, QuickSec: 50, ThoroughSec: 900, MemGB: 8},
 		},
 		Rule: "one run = one container file (gzip 0..6 members / zip / tar entries, png, gif 1..4 frames, wav) written by a Go standard library writer (hand-written 44-byte WAV header, hand-framed tEXt/zTXt png chunks) from tape-drawn contents (names ascii/unicode/long, payloads empty/incompressible/compressible/>64 KiB, gzip levels and name/comment/extra, zip store/deflate with and without data descriptor, tar USTAR/PAX/GNU, png gray/rgb/rgba/paletted, gif local tables/delays) stored on the simulated disk; fault none / storage crash during the write (file is a prefix cut at a tape-chosen byte) / bit-rot (one tape-chosen byte altered, 3 of 4 inside a checksummed region or a stored checksum); the whole of fq (interp.Main, -d FORMAT, one jq query printing JSON) reads it back; oracle intact: names, sizes, header fields, payload bytes (IDAT inflated and unfiltered to the pixels, GIF data un-LZW'd) equal what the writer was given and every stored checksum is marked valid; under a fault never a clean wrong result: per member reported == stored, or its checksum shown invalid, or an error / non-zero exit / member absent; a member lying completely in front of the cut must be right even when a later error is reported; uncovered header fields are not compared under bit-rot; distinct = fingerprint of file bytes + fault + output; non-trivial = at least one member",
 		Real: []string{"the whole of fq (pkg/interp, pkg/decode)", "format/gzip, zip, tar, png, gif, riff(wav), flate, crc"},
@@ -142,8 +142,8 @@ var plans = map[string]Plan{
 	},
 	"C05": {
 		Stages: []Stage{
-			{Harness: "hbits", Config: "benign", Quick: 560, Thorough: 60000, QuickSec: 140, ThoroughSec: 1200, MemGB: 8},
-			{Harness: "hbits", Config: "errors", Quick: 1000, Thorough: 40000, QuickSec: 80, ThoroughSec: 600, MemGB: 8},
+			{Harness: "hbits", Config: "benign", Quick: 560, Thorough: 6000, QuickSec: 140, ThoroughSec: 1800, MemGB: 8},
+			{Harness: "hbits", Config: "errors", Quick: 1000, Thorough: 12000, QuickSec: 80, ThoroughSec: 1000, MemGB: 8},
 		},
 		Rule: "one run = the whole of fq on one corpus sample (<= 24 KiB, the format and -o options its .fqtest command line names) with a tape-chosen bits_format, read-ahead size in {1,7,64,4096,512Ki} and progress precision in {1,16,1024}, a scheduler policy, and a simulated disk giving short reads, zero reads and latency (config errors: also transient/persistent EIO); the program lists for up to 120 or 1500 values path, range, buffer root and the rendering of tobytes and tobits under that bits_format, or writes tobytes of the root / of a byte aligned value raw; oracle (harness side, from the stored bytes): tobytes = bits[start:stop] left padded to a byte, tobits the same bits right padded when rendered as bytes, each of hex/base64/md5/snippet/byte_array/truncate/string recomputed with the Go standard library, raw root = the stored file; under error faults equality or a reported error, never a crash; values inside nested buffers and synthetic values are counted and skipped; distinct = distinct (sample, format, bits_format, schedule) fingerprint; non-trivial = at least one value compared",
 		Real: []string{"the whole of fq through interp.New/Main/Stop", "the real open stack ctxreadseeker -> progressreadseeker -> aheadreadseeker -> IOBitReadSeeker with knobs", "all format decoders the samples need"},
@@ -175,7 +175,7 @@ var plans = map[string]Plan{
 			{Harness: "hio", Config: "benign", Quick: 30000, Thorough: 3000000, QuickSec: 70, ThoroughSec: 1200},
 			{Harness: "hio", Config: "errors", Quick: 15000, Thorough: 1500000, QuickSec: 40, ThoroughSec: 600},
 			// system tier: the stack fq's open really builds, read lazily by tobytes/tobits
-			{Harness: "hbits", Config: "benign", Quick: 380, Thorough: 20000, QuickSec: 80, ThoroughSec: 500, MemGB: 8},
+			{Harness: "hbits", Config: "benign", Quick: 380, Thorough: 3500, QuickSec: 80, ThoroughSec: 900, MemGB: 8},
 		},
 		Rule: "one run = a tape-drawn reader composition (in-memory bit reader, zero reader, file stack IOBitReadSeeker(ahead?(progress?(ctx?(simulated disk)))) bare or clamped by bitiox.Range, section, multi, clone, byte round trip IOBitReadSeeker(IOReadSeeker(x)), limit) and 10..70 operations on it and its clones (ReadBits, ReadBitsAt, SeekBits start/current/end, ReadFull/ReadAtFull, clone, IOReader/IOReadSeeker byte views with 1..512 byte buffers, bitio.Copy into Buffer and IOBitWriter+Flush) while the simulated disk returns short reads, zero reads, latency and (config errors) transient/persistent EIO and the context is cancelled at a tape-chosen step; oracle: a reference bit-string model per node - count in range, no bit beyond the logical end, returned bits equal the model, EOF only at the logical end, seek results equal the model, byte views and writers equal the model zero padded; under error-class faults an operation may fail but never return wrong bits, and no call blocks forever; distinct = distinct (schedule, operation log) fingerprint; non-trivial = at least three operations executed",
 		Real: []string{"pkg/bitio (all readers, adapters, writer)", "internal/bitiox", "internal/aheadreadseeker", "internal/progressreadseeker", "internal/ctxreadseeker (statement-level yields, simulated channel rendezvous)"},
@@ -189,15 +189,15 @@ var plans = map[string]Plan{
 	},
 	"C20": {
 		Stages: []Stage{
-			{Harness: "hctx", Config: "default", Quick: 40000, Thorough: 4000000, QuickSec: 120, ThoroughSec: 900},
+			{Harness: "hctx", Config: "default", Quick: 40000, Thorough: 4000000, QuickSec: 120, ThoroughSec: 1200},
 			{Harness: "hctx", Config: "default", Race: true, Quick: 2000, Thorough: 100000, QuickSec: 60, ThoroughSec: 600},
 			// cancellation while a read or seek of the ctx reader is in flight (race mode)
 			{Harness: "hio", Config: "errors", Race: true, Quick: 1500, Thorough: 60000, QuickSec: 40, ThoroughSec: 400},
 			// liveness: a cancelled evaluation blocked in a read of a stalled device comes back
-			{Harness: "hstall", Config: "default", Quick: 6000, Thorough: 600000, QuickSec: 30, ThoroughSec: 200},
+			{Harness: "hstall", Config: "default", Quick: 6000, Thorough: 600000, QuickSec: 30, ThoroughSec: 300},
 			// system tier: whole fq in REPL / CLI mode under interrupts
-			{Harness: "hrepl", Config: "default", Quick: 480, Thorough: 40000, QuickSec: 80, ThoroughSec: 900, MemGB: 8},
-			{Harness: "hrepl", Config: "default", Race: true, Quick: 60, Thorough: 3000, QuickSec: 80, ThoroughSec: 600},
+			{Harness: "hrepl", Config: "default", Quick: 480, Thorough: 19000, QuickSec: 80, ThoroughSec: 1600, MemGB: 8},
+			{Harness: "hrepl", Config: "default", Race: true, Quick: 60, Thorough: 2900, QuickSec: 80, ThoroughSec: 1000},
 		},
 		Rule: "stalled device (hstall): a reader task does 3..7 reads and seeks through ctxreadseeker over a device that stalls at one drawn call and answers only after the caller is back, an interrupter cancels the context after 0..119 steps; oracle: the simulation does not deadlock (the cancelled call returns with the context error while the device still stalls), data returned before that is the device's || component tier: one run = a tape-drawn list of 3..12 push/finish/observe/write/stop operations by an evaluator task against 0..3 interrupts by an interrupter task, scheduled at statement level (policy drawn per run) over the real ctxstack; oracle: history linearizable (porcupine) against a stack-of-contexts model, no panic in any task, no deadlock, no race report in race mode; distinct = distinct schedule fingerprint (FNV of the event log); non-trivial = at least two recorded operations. hio race stage: cancellation while a read or seek of the ctx reader is in flight. system tier (hrepl): the whole of fq in REPL mode (fq -i, nested repl, multi-output lines each value displayed in a sub-evaluation, ^C at the prompt, ^D) or as one CLI evaluation, with 0..3 interrupts sent through the 1-buffered interrupt channel at tape-chosen OS events; reference = the same session without interrupts; oracle: per line (context-free lines, reference output known by text) the output is the reference with at most one contiguous piece removed per delivered interrupt not yet accounted for, lines evaluated before the first interrupt are exact, Main returns, no panic, no deadlock; race build of the same sessions",
 		Real: []string{"internal/ctxstack (statement-level yields)", "internal/iox.CtxWriter", "context", "internal/ctxreadseeker (hio race stage)", "the whole of fq incl. repl.jq, interp.go Eval/interruptStack (hrepl)"},
